@@ -8,8 +8,27 @@ import nopgen
 
 MAIN = r'''
 #include "pool_types.h"
+#include <cstdlib>
 #include <iostream>
 %(decls)s
+// byte-counting allocator (C02): every operator new in the process is counted
+static thread_local std::size_t g_alloc_bytes = 0;
+std::size_t& vh::AllocCounter() { return g_alloc_bytes; }
+// a single request above 256 MiB, or 1 GiB in total since the last reset, is refused:
+// hostile lengths must be rejected before memory is committed (C02)
+static void* CountedAlloc(std::size_t n) {
+  g_alloc_bytes += n;
+  if (n > (std::size_t{1} << 28) || g_alloc_bytes > (std::size_t{1} << 30)) throw std::bad_alloc();
+  void* p = std::malloc(n ? n : 1);
+  if (!p) throw std::bad_alloc();
+  return p;
+}
+void* operator new(std::size_t n) { return CountedAlloc(n); }
+void* operator new[](std::size_t n) { return CountedAlloc(n); }
+void operator delete(void* p) noexcept { std::free(p); }
+void operator delete[](void* p) noexcept { std::free(p); }
+void operator delete(void* p, std::size_t) noexcept { std::free(p); }
+void operator delete[](void* p, std::size_t) noexcept { std::free(p); }
 int main() {
   vh::Registry reg;
 %(calls)s
@@ -48,7 +67,11 @@ int main() {
       auto& tab = lib ? reg.lib : reg.core;
       auto it = tab.find(a[1].a);
       if (it == tab.end()) out = lib ? "unsupported" : "HARNESS-ERROR unknown type " + a[1].a;
-      else out = it->second(a);
+      else {
+        try { out = it->second(a); }
+        catch (const std::bad_alloc&) { out = "OOM alloc=" + std::to_string(vh::AllocCounter()); vh::AllocCounter() = 0; }
+        catch (const std::exception& e) { out = std::string("EXCEPTION ") + e.what() + " alloc=" + std::to_string(vh::AllocCounter()); vh::AllocCounter() = 0; }
+      }
     }
     std::cout << out << "\n" << std::flush;
   }
